@@ -13,6 +13,8 @@ from ..repo import REPO
 from ..repo import bexc
 from ..repo import entrypoint as EP
 from ..repo import model as M
+from ..repo import mwbase
+from ..repo import mws
 from ..repo import splitter as SP
 from ..repo import writer as W
 
@@ -29,6 +31,35 @@ K_LINE, C_LINE = 200, 20000        # deterministic step budget: line events <= K
 
 class StepBudgetExceeded(BaseException):
     pass
+
+
+import contextlib as _contextlib
+
+
+@_contextlib.contextmanager
+def _undo(tampered):
+    """Whatever the run did to lists it obtained from the library is undone afterwards: if the library
+    handed out shared state (which is the defect the tampering is there to expose), the next run must
+    still start from a clean process."""
+    try:
+        yield
+    finally:
+        for lst, saved in tampered:
+            lst[:] = saved
+
+
+class Raising(mwbase.BlockMiddleware):
+    """A caller's own middleware that refuses every entry (used to pollute lists the caller obtained,
+    and as a stack that fails half-way)."""
+
+    def __init__(self):
+        super().__init__(allow_inplace_modification=True, allow_parallel_execution=True)
+
+    def transform_entry(self, entry, library):
+        raise RuntimeError("caller's middleware refuses entries")
+
+    def transform_implicit_comment(self, c, library):
+        raise RuntimeError("caller's middleware refuses comments")
 
 
 # ------------------------------------------------------------------ generation
@@ -112,7 +143,16 @@ def generate(rng, tier, prop):
             nf = rng.choice([0, 1, 1, 1, 2, 3])
             for _ in range(nf):
                 ops.append(dict(faults.draw(rng), op="fault", path="a.bib", other=1))
+        cfg["log"] = "debug" if rng.random() < 0.15 else None
+        if rng.random() < 0.12:
+            ops.append({"op": "tamper_defaults", "how": rng.choice(["raising", "clear", "raising"])})
         ops.append({"op": "load", "path": "a.bib", "stack": rng.choice(["default", "none"]), "via": via})
+        if len(cfg["docs"]) > 1 and "text" in cfg["docs"][1] and rng.random() < 0.3:
+            # a second document is parsed into the library the first call returned
+            ops.append({"op": "seed", "path": "c.bib", "doc": rng.choice([0, 1]), "writer": "foreign"})
+            if rng.random() < 0.5:
+                ops.append(dict(faults.draw(rng), op="fault", path="c.bib", other=1))
+            ops.append({"op": "load_into", "path": "c.bib", "stack": rng.choice(["default", "none", "raising"])})
         ops.append({"op": "save", "path": "b.bib", "fmt": rng.choice([None, 0, 1, 2]), "how": "string"})
         ops.append({"op": "load", "path": "b.bib", "stack": rng.choice(["default", "none"]), "via": via})
         if rng.random() < 0.3:
@@ -130,9 +170,19 @@ def generate(rng, tier, prop):
         for _ in range(nf):
             f = faults.draw(rng, [k for k in faults.KINDS if k not in ("crlf_rewrite", "bom")])
             fl.append(f)
+        if rng.random() < 0.12:
+            # concatenation of a document with itself: every keyed block repeats character for character
+            fl = []
+            which = rng.choice(["mid=d2", "d1=d2", "all"])
+            src = _slim(d2)
+            cfg["docs"][1] = src
+            if which != "mid=d2":
+                cfg["docs"][0] = src
+            if which == "d1=d2":
+                cfg["docs"][1] = _slim(_doc(rng, tier, enc, nblocks=0))
         ops.append({"op": "splice", "d1": 0, "mid": 1, "d2": 2, "other": 3, "faults": fl,
                     "glue": rng.choice(["\n", "\n", "\n\n", "", " \n"]),
-                    "raw_x": rng.choice([None, None, None, 0, 1, 2, 3, 4, 5, 6, 7]),
+                    "raw_x": rng.choice([None, None, None, 0, 1, 2, 3, 4, 5, 6, 7]) if fl or rng.random() < 0.5 else None,
                     "no_d2": rng.random() < 0.25})
     elif prop == "C05":
         cfg["docs"].append(_slim(_doc(rng, tier, enc)))
@@ -140,13 +190,15 @@ def generate(rng, tier, prop):
         ops.append({"op": "seed", "path": "a.bib", "doc": 0, "writer": writer, "fmt": rng.randrange(3)})
         if rng.random() < 0.25:
             ops.append({"op": "fault", "kind": "crlf_rewrite", "path": "a.bib", "at": 0, "len": 0})
+        if rng.random() < 0.1:
+            ops.append({"op": "tamper_defaults", "how": rng.choice(["clear", "raising"])})
         ops.append({"op": "load", "path": "a.bib", "stack": "default", "via": "file"})
         for c in range(rng.randint(1, 4)):
             f = rng.choice([None, 0, 1, 2])
             p = rng.choice(["a.bib", "b.bib", "c.bib"])
             if rng.random() < 0.3:
                 ops.append({"op": "plant", "path": p})   # a longer pre-existing file at the target
-            ops.append({"op": "save", "path": p, "fmt": f, "how": "file", "target": rng.choice(["path", "path", "fileobj"])})
+            ops.append({"op": "save", "path": p, "fmt": f, "how": "file", "target": rng.choice(["path", "path", "fileobj", "stringio"])})
             ops.append({"op": "restart"})
             ops.append({"op": "load", "path": p, "stack": "default", "via": "file"})
             ops.append({"op": "save", "path": "again.bib", "fmt": f, "how": "file"})
@@ -358,9 +410,57 @@ def execute(run, props, force_trace=False):
                 res.precondition_miss += 1   # an escaping exception is C01's matter
             return False, None
 
-    with simfs.installed(disk):
+    import contextlib
+    import logging
+
+    @contextlib.contextmanager
+    def logging_as_configured():
+        # a host application may have switched logging on before it calls the library
+        if cfg.get("log") != "debug":
+            yield
+            return
+        lg = logging.getLogger("bibtexparser")
+        old = (logging.root.manager.disable, lg.level, lg.propagate, list(lg.handlers))
+        logging.disable(logging.NOTSET)
+        lg.setLevel(logging.DEBUG)
+        lg.propagate = False
+        lg.handlers = [logging.NullHandler()]
+        res.probes["logging_enabled_at_debug"] += 1
+        try:
+            yield
+        finally:
+            logging.disable(old[0])
+            lg.setLevel(old[1])
+            lg.propagate = old[2]
+            lg.handlers = old[3]
+
+    tampered = []   # (list object, its original content): undone at the end so that runs stay independent
+    with simfs.installed(disk), logging_as_configured(), _undo(tampered):
         for step, op in enumerate(run["ops"]):
             kind = op["op"]
+            if kind == "tamper_defaults":
+                # the caller asks for the default stacks through the public accessors and edits the lists it got
+                try:
+                    ps, us = mws.default_parse_stack(), mws.default_unparse_stack()
+                    tampered.append((ps, list(ps)))
+                    tampered.append((us, list(us)))
+                    if op["how"] == "clear":
+                        ps.clear()
+                        us.clear()
+                    else:
+                        ps.insert(0, Raising())
+                        us.append(Raising())
+                    res.probes["caller_edited_its_copy_of_default_stacks"] += 1
+                except Exception:
+                    pass
+                res.nops += 1
+                res.event(step, "tamper_defaults", op["how"], "")
+                continue
+            if kind == "load_into":
+                _load_into(res, op, step, disk, enc, mem, prop, V, guarded)
+                if res.violations:
+                    return res
+                continue
             if kind == "seed":
                 d = docs[op["doc"] % len(docs)]
                 text = d["text"]
@@ -530,9 +630,17 @@ def execute(run, props, force_trace=False):
                 if prop == "C05":
                     cont = [content(b) for b in blocks]
                     if c05["before"] is None:
-                        if fb:
+                        # the workload's entry and string keys are pairwise distinct (exactly; some differ in case only),
+                        # so a duplicate-key block is the library's doing and the round trip is judged all the same;
+                        # any other failed block means the workload left the property's domain: discarded, counted
+                        if any(not isinstance(b, M.DuplicateBlockKeyBlock) for b in fb):
                             res.precondition_miss += 1
                             res.event(step, "load", "precondition-miss", "")
+                            return res
+                        if fb:
+                            V("C05", "content", "duplicate-key-block-for-distinct-keys", step,
+                              f"the document's keys are pairwise distinct but the first load holds a duplicate-key block for {fb[0].key!r}: "
+                              f"written back it becomes a warning comment plus raw text, so the re-parsed block sequence cannot equal the first")
                             return res
                         res.nontrivial = True
                     else:
@@ -563,7 +671,14 @@ def execute(run, props, force_trace=False):
                 if op.get("how") == "file":
                     prev_bytes[p] = disk.files.get(p, b"")
                     try:
-                        if enc.lower() == "utf-8" and op.get("target", "path") == "path":
+                        if op.get("target") == "stringio":
+                            # in-memory handle the caller reads back afterwards, then stores the text itself
+                            import io as _io
+                            buf = _io.StringIO()
+                            EP.write_file(buf, lib, bibtex_format=f)
+                            disk.put(p, simfs.expected_written_bytes(buf.getvalue(), enc, cfg["platform_newline"]))
+                            res.probes["saved_through_stringio"] += 1
+                        elif enc.lower() == "utf-8" and op.get("target", "path") == "path":
                             EP.write_file(p, lib, bibtex_format=f)
                             res.probes["saved_to_path"] += 1
                         else:
@@ -608,6 +723,69 @@ def execute(run, props, force_trace=False):
             else:
                 raise ValueError(kind)
     return res
+
+
+def _load_into(res, op, step, disk, enc, mem, prop, V, guarded):
+    """parse_string(text2, library=lib): a second document parsed into the library an earlier call returned."""
+    lib = mem["lib"]
+    p = op["path"]
+    if lib is None or p not in disk.files:
+        res.skipped += 1
+        res.event(step, "load_into", "skipped", "")
+        return
+    text, _ = lenient_decode(disk.get(p), enc)
+    before = list(lib.blocks)
+    res.sim_steps += 1
+    res.nops += 1
+    if op["stack"] == "raising":
+        # a stack that fails half-way: the call raises (not C01's matter: the caller's middleware raised)
+        try:
+            EP.parse_string(text, parse_stack=[Raising()], library=lib)
+            outcome = "returned"
+        except RuntimeError:
+            outcome = "raised"
+        except RecursionError:
+            res.precondition_miss += 1
+            return
+        except Exception as e:  # noqa
+            outcome = "raised:" + type(e).__name__
+        res.probes["parse_into_library_raised"] += outcome != "returned"
+        if prop == "C03":
+            now = lib.blocks
+            # the blocks the earlier call returned must still be there, in their order
+            if len(now) < len(before) or any(a is not b for a, b in zip(before, now)):
+                V("C03", "order", "earlier-blocks-disturbed-by-failed-parse", step,
+                  f"after a parse into the same library failed, the {len(before)} blocks returned by the earlier call are no longer a prefix of blocks "
+                  f"(now {[type(b).__name__ for b in now][:8]})")
+                return
+        res.event(step, "load_into:raising", outcome, "")
+        return
+    stack = None if op["stack"] == "default" else []
+    ok, out = guarded(step, "parse_string(library=)", lambda: EP.parse_string(text, parse_stack=stack, library=lib), len(text))
+    if not ok:
+        return
+    res.probes["parsed_into_existing_library"] += 1
+    if prop == "C03" and op["stack"] == "none":
+        now = out.blocks
+        if len(now) < len(before) or any(a is not b for a, b in zip(before, now)):
+            V("C03", "order", "earlier-blocks-disturbed", step, "parsing a second text into a library disturbed the blocks already in it")
+            return
+        new = now[len(before):]
+        viol, offs = tiling(text, new)
+        if viol is not None:
+            clause, detail, k = viol
+            V("C03", clause, "into-existing-library", step, "second text parsed into an existing library: " + detail)
+            return
+        for b, o in zip(new, offs):
+            if o is not None and b.raw and b.start_line != text[:o].count("\n"):
+                V("C03", "line", "block-start/into-existing-library", step,
+                  f"{type(b).__name__} reports start_line {b.start_line}, its raw starts on 0-based line {text[:o].count(chr(10))} of the second text")
+                return
+    mem["lib"] = out
+    mem["text"] = (mem["text"] or "") + text
+    mem["seed_spans"] = None
+    res.nontrivial = True
+    res.event(step, "load_into:" + op["stack"], "ok:" + hexdigest_of(repr([content(b) for b in out.blocks[:60]]), 8), "")
 
 
 def _parse_blocks(text):
@@ -700,7 +878,16 @@ def _splice(res, op, cfg, docs, step, V, guarded):
                   f"block {i} of the well-formed prefix changed when text was appended: alone {_cmp(b)!r}@{b.start_line}, with suffix {_cmp(g)!r}@{g.start_line}")
                 return
         tail = got[len(got) - len(p2):]
+        line_off = text[:x_end].count("\n")
         for i, (g, b) in enumerate(zip(tail, p2)):
+            if _cmp(g) == _cmp(b):
+                # "parsed exactly as on its own": the same lines too, shifted by the number of line breaks before D2
+                gl, bl = [g.start_line] + [f.start_line for f in getattr(unwrap_dup(g), "fields", [])], \
+                         [b.start_line] + [f.start_line for f in getattr(unwrap_dup(b), "fields", [])]
+                if any(x is None or y is None or x - y != line_off for x, y in zip(gl, bl)):
+                    V("C04", "suffix-lines", f"{how}/{type(unwrap_dup(b)).__name__}", step,
+                      f"block {i} of the well-formed suffix: start lines {gl} after X, {bl} on its own; {line_off} line breaks precede the suffix")
+                    return
             if _cmp(g) != _cmp(b):
                 st = "first" if i == 0 else "later"
                 V("C04", "suffix", f"{how}/{st}/{type(unwrap_dup(b)).__name__}", step,
